@@ -3,7 +3,6 @@
 // C31 (part a): the unbounded queue delivers every accepted value exactly once, in order, and closes only after that.
 //verif:pkg internal/buffer
 //verif:bound loop=40 steps=4000000 preempt=2 paths=600000
-//verif:thorough preempt=3
 //verif:noreplay schedule-dependent: witnesses are re-executed deterministically in the engine from the recorded decision prefix
 //verif:outside more than 2 producers with 2 and 1 values; more than one consumer; preemption bound 2 (quick) / 3 (thorough)
 package buffer
